@@ -159,6 +159,72 @@ def resolveEmptF (run : Nat → Except Fault (Map × Out × Bool)) (glObs : Opti
 
 def sortEnts (es : List Entry) : List Entry := (es.toArray.qsort (fun a b => a.k < b.k)).toList
 
+/-! ### `extend`: resolving the per-call oracles
+
+`Map.extend` takes one oracle per call (the `reserve`, then each `insert`).  What is observed is the state after the
+whole `extend`.  Erasures do not happen inside `extend`, so tombstones are only consumed; landing on a tombstone as
+early as possible is then always a valid schedule, and every schedule with the same total leads to the same final
+state.  The resolution therefore searches one number — the total `T` of tombstone landings —, assigns it greedily
+to the earliest calls, and builds the iteration order of a table parked by a growth from the observed final order of
+the old table (the elements carried since, in any order, then what is still parked, in the observed order). -/
+
+def tombs (m : Map) : Nat := fullCap m.main.buckets - m.main.ents.length - m.main.gl
+
+def permFor (m : Map) (finalOld : List Nat) : List Nat :=
+  -- (a `reserve` on a split map carries everything over before it grows: all keys are parked then)
+  let ks := m.ents.map (·.k)
+  ks.filter (fun k => !finalOld.contains k) ++ finalOld.filter (fun k => ks.contains k)
+
+/-- one greedy simulation for a total of `T` landings: the oracle of every call (reserve first), or `none` if a call
+    fails or landings are left when a growth discards the tombstones -/
+def extendOrcs (c : Cfg) (m : Map) (items : List Entry) (finalOld : List Nat) (T : Nat) : Option (List Orc × Map) :=
+  let hint := if m.len = 0 then items.length else (items.length + 1) / 2
+  let o0 : Orc := { hits := T, perm := permFor m finalOld }
+  match Map.reserve c m hint o0 with
+  | .error _ => none
+  | .ok (m1, _) =>
+    let used0 := if m1.main.buckets == m.main.buckets then tombs m - tombs m1 else T
+    if m1.main.buckets != m.main.buckets && T != 0 && m.lo.isNone then none else
+    let rec go (m : Map) (items : List Entry) (left : Nat) (acc : List Orc) : Option (List Orc × Map) :=
+      match items with
+      | [] => some (acc.reverse, m)
+      | e :: rest =>
+        let o : Orc := { hits := left, perm := permFor m finalOld }
+        match Map.insert c m e o with
+        | .error _ => none
+        | .ok (m', _) =>
+          if m'.main.buckets == m.main.buckets then go m' rest (left - (tombs m - tombs m')) (o :: acc)
+          else if left != 0 then none
+          else go m' rest 0 (o :: acc)
+    go m1 items (T - used0) [o0]
+
+def resolveExtend (c : Cfg) (m : Map) (items : List Entry) (finalOld : List Nat) (glObs mbObs : Option Nat) :
+    Except Fault (Map × Out) :=
+  let run (T : Nat) : Option (Except Fault (Map × Out)) :=
+    match extendOrcs c m items finalOld T with
+    | none => none
+    | some (orcs, _) =>
+      -- the definition the theorems are about, on the resolved oracles (indexed by the pairs still to come)
+      some (Map.extend c m items (fun _ n => orcs.getD (items.length - n) {}))
+  let good (r : Except Fault (Map × Out)) : Bool :=
+    match r, glObs with
+    | .ok (m', _), some g => m'.main.gl == g && (match mbObs with | some b => m'.main.buckets == b | none => true)
+    | .ok _, none => true
+    | .error _, _ => false
+  let first := (run 0).getD (Map.extend c m items (fun m' _ => { perm := permFor m' finalOld }))
+  if good first then first else
+  let guess : Nat := match first, glObs with
+    | .ok (m', _), some g => g - m'.main.gl
+    | _, _ => 0
+  let cands := guess :: (List.range (tombs m + 1)).filter (fun t => t != 0 && t != guess)
+  let rec search : List Nat → Except Fault (Map × Out)
+    | [] => first
+    | t :: rest =>
+      match run t with
+      | some r => if good r then r else search rest
+      | none => search rest
+  search cands
+
 def replayLine (s : DState) (op : String) (mid : Nat) (args : List String) (orc : List (String × String))
     (obs : List (String × String)) : Replay :=
   let c := s.cfg
@@ -265,6 +331,16 @@ def replayLine (s : DState) (op : String) (mid : Nat) (args : List String) (orc 
       | some st =>
         fin (resolveBoth (fun e h => Map.entryChain c (raw == "1") lh m k kid st { o with empt := e, hits := h })
               glObs ((field? obs "mb").bind (·.toNat?)) (chainCands (c.R + 2) 0 st))
+  | "extend", [items] => needMap fun m =>
+      let pe (x : String) : Option Entry :=
+        match x.splitOn ":" with
+        | [k, kid, v, vid] => do
+          pure { k := ← k.toNat?, kid := ← kid.toNat?, v := ← v.toNat?, vid := ← vid.toNat? }
+        | _ => none
+      match (if items == "-" then some [] else (items.splitOn ",").mapM pe) with
+      | none => .bad "extend items"
+      | some es =>
+        fin (resolveExtend c m es (fieldList orc "oldorder") glObs ((field? obs "mb").bind (·.toNat?)))
   | "finsert", [k, kid, v, vid, fuse] =>
     nat k fun k => nat kid fun kid => nat v fun v => nat vid fun vid => nat fuse fun fuse => needMap fun m =>
       finF (resolveHitsF (fun h => Map.insertFused c m ⟨k, kid, v, vid⟩ fuse { o with hits := h }) glObs (c.R + 2))
